@@ -79,14 +79,18 @@ def b_terms(job):
     if job.get("burst") == "distinct":
         # use up the 32 distinct classes of the term store first: later distinct terms take the fallback encoding
         seen_d = set()
+        vpool = {}
         for s_ in (INT, REAL, "U"):
-            for nm in ("d1", "d2", "d3"):
+            before = len(pool[s_])
+            for nm in ("d1", "d2", "d3", "d4"):
                 add_var(nm + s_[0].lower(), s_)
+            # variables only: any two arguments can be made equal by an interpretation
+            vpool[s_] = [i for i in pool[s_] if tb.rec(items[i])["k"] == "v"]
         tries = 0
-        while len(seen_d) < 36 and tries < 400:
+        while len(seen_d) < 40 and tries < 600:
             tries += 1
             s_ = rng.choice([INT, REAL, "U"])
-            args = tuple(rng.sample(pool[s_], 3)) if len(pool[s_]) >= 3 else None
+            args = tuple(rng.sample(vpool[s_], 3)) if len(vpool[s_]) >= 3 else None
             if args and frozenset(args) not in seen_d and len(set(items[a] for a in args)) == 3:
                 if add_mk("distinct", list(args)) is not None:
                     seen_d.add(frozenset(args))
@@ -223,6 +227,16 @@ def b_terms(job):
            {"nm": "v", "s": "U", "vals": [tb.uval("@g0", "U"), tb.uval("@g1", "U")]},
            {"nm": "a", "s": A, "vals": [ca, tb.app("store", [ca, nv(1, INT), nv(2, INT)])]},
            {"nm": "b", "s": A, "vals": [ca, tb.app("store", [tb.constarr(A, nv(1, INT)), nv(0, INT), nv(0, INT)])]}]
+    have = {d["nm"] for d in dom}
+    for i, op_, a_, r_ in reqs:
+        if op_ == "var":
+            nm_, s_ = tb.rec(r_)["nm"], tb.sort(r_)
+            if nm_ not in have:
+                have.add(nm_)
+                vals_ = {INT: [nv(v, INT) for v in (-1, 0, 1)], REAL: [nv(v, REAL) for v in (0, Fraction(1, 2), 1)],
+                         "U": [tb.uval("@g0", "U"), tb.uval("@g1", "U")], BOOL: [tb.true(), tb.false()]}.get(s_)
+                if vals_:
+                    dom.append({"nm": nm_, "s": s_, "vals": vals_})
     g0, g1 = tb.uval("@g0", "U"), tb.uval("@g1", "U")
     q0 = tb.var("q!0", "U"); q1 = tb.var("q!1", "U")
     swap = tb.app("ite", [tb.app("=", [q0, g0]), g1, g0])
